@@ -14,6 +14,10 @@ from .C07 import h_pad as h_sel_pad  # noqa: F401
 from .C07 import h_plane as h_sel_plane  # noqa: F401
 from .C07 import h_range as h_sel_range  # noqa: F401
 from .C07 import h_resample as h_sel_resample  # noqa: F401
+from .C10 import h_roundtrip as h_hdf5_roundtrip  # noqa: F401  (validity bit per cell through the HDF5 writer/reader)
+from .C12 import h_field as h_rotate90  # noqa: F401  (validity bit per cell moves with the quarter turn)
+from .C16 import h_grid as h_vtk_grid  # noqa: F401  (validity flag in the VTK cell located at each position)
+from .C16 import h_roundtrip as h_vtk_roundtrip  # noqa: F401
 
 META = dict(
     bounds=dict(
@@ -374,4 +378,13 @@ def tasks(tier):
             if q and (cfgd.get("nvdim", 1) > 1 or len(cfgd.get("n", [])) > 2):
                 continue
             t.append(dict(harness=h.replace("h_", "h_sel_", 1), cfg=cfgd, limits=task.get("limits", {})))
+    # file round trips: the C10 / C16 harnesses carry one symbolic validity bit per cell through the writers and readers
+    from . import C10, C12, C16
+
+    for mod, names in ((C10, {"h_roundtrip": "h_hdf5_roundtrip"}), (C16, {"h_roundtrip": "h_vtk_roundtrip", "h_grid": "h_vtk_grid"}), (C12, {"h_field": "h_rotate90"})):
+        picked = [x for x in mod.tasks(tier) if x["harness"] in names]
+        if q:
+            picked = picked[::3]
+        for x in picked:
+            t.append(dict(harness=names[x["harness"]], cfg=x["cfg"], limits=x.get("limits", {})))
     return t
